@@ -13,23 +13,23 @@ checks = {
    note="Trusted: output parser over sentinel templates; trailing empty rows are not compared (no glyphs)."),
  "C15": dict(level="fault_enumeration", design="§4 C15",
    technique=TECH + "storage-corruption fault on bytecode records: every truncation, every byte replaced by 8 values, appended garbage; two readers (engine/VM, disassembler) against an independent decoder",
-   text="For sampled valid programs using all twelve opcodes the stored record is damaged in every way of the catalogue and handed to the VM (through the resource seam, two requests) and to the disassembler; an independent decoder classifies each damaged record; no reader may panic in decoding, the disassembler must fail iff the record is malformed, the VM must fail on a truncated instruction, never report success past a malformed one (also not by showing the decoding error on a catch page after an earlier external failure) and not go on from behind it on the next request. Every second run repeats a set of damages behind 300 to 70000 complete valid instructions. Exhaustive per program over the catalogue; programs sampled. Claimed only as a storage fault (not arbitrary byte strings, not coverage-guided fuzzing).",
+   text="For sampled valid programs using all twelve opcodes the stored record is damaged in every way of the catalogue and handed to the VM (through the resource seam, two requests) and to the disassembler; an independent decoder classifies each damaged record; no reader may panic in decoding, the disassembler must fail iff the record is malformed, the VM must fail on a truncated instruction, never report success past a malformed one (also not by showing the decoding error on a catch page after an earlier external failure) and not go on from behind it on the next request. Every second run repeats a set of damages behind 300 to 70000 complete valid instructions.  In half the runs a second symbol whose name extends the first one's is loaded and mapped. For the long records a third reader runs: the repository's disassembler executable (dev/disasm, built by build.sh) on a real file, judged by its exit status. Exhaustive per program over the catalogue; programs sampled. Claimed only as a storage fault (not arbitrary byte strings, not coverage-guided fuzzing).",
    note="Trusted: refcodec decoder written from the documentation; panics outside the decoding functions (e.g. a decoded flag index out of range) are execution semantics and only counted."),
  "C19": dict(level="exploration", design="§4 C19",
    technique=TECH + "2..16 session goroutines under a seeded baton scheduler (one runs at a time, next task drawn from the tape at every seam event and, for sessions on the filesystem store in one shared directory, before every file-system call), hand-off hidden from the race detector; solo-vs-concurrent twin, canary in shared tables, -race child processes",
-   text="Seeded search over schedules: sessions sharing only immutable application tables are served first alone, then concurrently under a scheduler that decides every interleaving from the tape; transcripts must be equal, the shared tables including a canary in the spare capacity of every bytecode slice must be untouched, and a third (quick) / all (thorough) of the worlds are re-run in a -race build in which the scheduler's own hand-offs are invisible, so that any conflicting access between two sessions is reported and replayable from the tape. Sampling over schedules.",
+   text="Seeded search over schedules: sessions sharing only immutable application tables are served first alone, then concurrently under a scheduler that decides every interleaving from the tape; transcripts must be equal, the shared tables including a canary in the spare capacity of every bytecode slice must be untouched, and a third (quick) / all (thorough) of the worlds are re-run in a -race build in which the scheduler's own hand-offs are invisible, so that any conflicting access between two sessions is reported and replayable from the tape. Every world of a run gets its own stamped instance of the application (templates, label symbols; blanked before comparison), so that anything the library keeps process-wide by content or name shows as a difference between the phases; one run in 6 scripts sessions in different languages onto one paginated node; one run in 8 serves all sessions through one shared gettext resource of the library. Sampling over schedules.",
    note="Trusted: baton scheduler (sched), runtime.RaceDisable around the hand-off, ThreadSanitizer's bounded history; per-session harness state so that only library state is shared."),
  "C03": dict(level="exploration", design="§4 C03",
    technique=TECH + "seeded programs x input histories with restarts and failing external calls, refinement of the recorded move history against the reference model refvm",
-   text="Seeded search over generated INCMP blocks (duplicates, wildcard anywhere, relative targets) and input histories; the ordered code fetches of every request (one per successful move) must equal the routing decision of an independent reference model written from the documentation; unmatched input must land on the catch node showing the input. Sampling, not proof.",
+   text="Seeded search over generated INCMP blocks (duplicates, wildcard anywhere, relative targets) and input histories; the ordered code fetches of every request (one per successful move) must equal the routing decision of an independent reference model written from the documentation; unmatched input must land on the catch node showing the input; a quarter of the runs have the library's debugger attached, a third have nodes with 14-30 more INCMP lines. Sampling, not proof.",
    note="Trusted: refvm (model of the VM over the IR), the independent bytecode encoder, one-GetCode-per-move observation. The model abstains after execution errors."),
  "C04": dict(level="exploration", design="§4 C04",
    technique=TECH + "seeded move histories with single-candidate routing, restarts on all backends, refinement of position against refvm's move table",
-   text="Seeded search over node graphs with every target kind from MOVE, INCMP and CATCH and histories of descents, ascents, rewinds, repeats, lateral and failing moves, with restarts on memory, filesystem and Postgres-fake; after every request (path, page index) read from the live/persisted state must equal the documented table, and a failing move must report failure. Sub-batches: stacks of up to 128 entries, a restart after a failed move, up to 40000 lateral moves in a row. Sampling.",
+   text="Seeded search over node graphs with every target kind from MOVE, INCMP and CATCH and histories of descents, ascents, rewinds, repeats, lateral and failing moves, with restarts on memory, filesystem and Postgres-fake; after every request (path, page index) read from the live/persisted state must equal the documented table, and a failing move must report failure. Requests that the pre-VM function turns away leave the position as it was; the library's debugger is attached in a quarter of the runs; nodes with 14-30 more INCMP lines. Sub-batches: stacks of up to 128 entries, a restart after a failed move, up to 40000 lateral moves in a row. Sampling.",
    note="Trusted: refvm move table; requests whose number of moves differs from the model are left to C03/C06 (counted). '^' on the entry node with a non-zero index is not compared."),
  "C05": dict(level="exploration", design="§4 C05",
    technique=TECH + "seeded LOAD/RELOAD/MAP programs x up/down histories with failing, empty and oversized external results and restarts, refinement of call log, symbol tables and shown values against refvm",
-   text="Seeded search over programs loading the same symbols at several depths with results around every limit (empty, at limit, over limit, >= 64 KiB); external call log, per-level symbol tables and values shown on the page must equal the reference model's after every request, templates referencing an unmapped symbol must fail to render, and no stored value may exceed its limit. Sampling.",
+   text="Seeded search over programs loading the same symbols at several depths with results around every limit (empty, at limit, over limit, >= 64 KiB); external call log, per-level symbol tables and values shown on the page must equal the reference model's after every request, templates referencing an unmapped symbol must fail to render, and no stored value may exceed its limit. A quarter of the runs have a generous output size and the library's debugger attached; mapped symbols are now and then RELOADed behind their MAP. Sampling.",
    note="Trusted: refvm; output parser over sentinel templates. Compared only while the position agrees with the model (skipped_upstream otherwise)."),
  "C06": dict(level="exploration", design="§4 C06",
    technique=TECH + "adversarial flag lists injected through external results (reserved indices, TERMINATE), restarts; refinement against refvm plus a stripped-reserved-flags differential twin",
@@ -37,47 +37,47 @@ checks = {
    note="Trusted: refvm; twin comparison cannot mis-model the code. Built-in bookkeeping flags are compared only between twins."),
  "C18": dict(level="exploration", design="§4 C18",
    technique=TECH + "language switches injected through external results (valid, invalid, repeated) with partial translation tables and restarts, over three resource stacks (harness resource, library DbResource over a recording store, library gettext resource over generated .po files); refinement against refvm's language per lookup",
-   text="Seeded search over programs that switch language at arbitrary points; the language on the context of every external call and of every template/menu lookup (harness resource) or store lookup (library DbResource over a recording store), also after restart, must be the model's current language; pages must show the translated template/label when one exists and the default entry otherwise; invalid codes must change nothing. Sampling.",
+   text="Seeded search over programs that switch language at arbitrary points; the language on the context of every external call and of every template/menu lookup (harness resource) or store lookup (library DbResource over a recording store), also after restart, must be the model's current language; pages must show the translated template/label when one exists and the default entry otherwise; invalid codes must change nothing. Switch attempts use 639-3 codes, 639-1 codes, the 639-2 bibliographic forms that differ from them (fre, ger) and strings that are no code; in a third of the runs one node is named like a translation (its name ends in _<code> of a language with translations). Sampling.",
    note="Trusted: refvm language rules; a small table of valid ISO-639 codes in the model."),
  "C20": dict(level="exploration", design="§4 C20",
    technique=TECH + "histories continuing past graceful and abnormal session ends with a restart before every request on all backends, refinement against refvm's end/blocked behaviour",
    text="Seeded search over programs with both kinds of end node and TERMINATE-setting external code; after a graceful end the stored session must have an empty symbol cache and the same client flags and the next request must run the entry node afresh; after an abnormal end every later request must report stop, output nothing and run nothing until the harness clears the flag. Sampling.",
-   note="Trusted: refvm; nothing is asserted after the harness cleared TERMINATE.  One run in 4 keeps the session's persister between requests; after client code has cleared TERMINATE in the stored session (own handle and persister) the next request must be served again. One request in 10 has the store fail the read of the session record: the session must not be lost over it (the model is not advanced; a blocked session is still blocked afterwards); on the Postgres store the fault is one failing driver call of the request at a drawn offset instead. Template-lookup and client-write faults are injected on arbitrary requests including the one that ends the session: the page is then not compared, the restart/blocking behaviour is."),
+   note="Trusted: refvm; nothing is asserted after the harness cleared TERMINATE.  One run in 4 keeps the session's persister between requests; after client code has cleared TERMINATE in the stored session (own handle and persister) the next request must be served again. One request in 10 has the store fail the read of the session record: the session must not be lost over it (the model is not advanced; a blocked session is still blocked afterwards); on the Postgres store the fault is one failing driver call of the request at a drawn offset instead.  At a graceful end the final output must end with the value the session loaded last (the exit value). The library's debugger is attached in a quarter of the runs. Template-lookup and client-write faults are injected on arbitrary requests including the one that ends the session: the page is then not compared, the restart/blocking behaviour is."),
  "C09": dict(level="exploration", design="§4 C09",
    technique=TECH + "seeded cache operation histories with snapshot/restore (restart) injected between operations, refinement against a reference cache, failure-atomicity check",
    text="Seeded operation histories over the cache API (values across the 16-bit boundary, limits, capacities) checked operation by operation against a small reference cache: limit and capacity enforcement, exact byte accounting, one scope per symbol, release on Pop/Reset, and unchanged exported state after every rejected operation; a sub-batch serialises and restores the cache between operations. The cache is sequential: the family contributes histories, restart as a fault and the model, not schedules. Sampling.",
    note="Trusted: the reference cache (maps with limits). Acceptance of an operation the model accepts is not demanded (counted as probe)."),
  "C10": dict(level="exploration", design="§4 C10",
    technique=TECH + "one operation history in lock-step on memory, filesystem (simulated disk, text and binary keys) and Postgres (fake server) with handle reopen, refinement against a reference map",
-   text="Seeded histories of Put/Get/SetPrefix/SetSession/SetLanguage/SetLock/seal/Dump/reopen applied in lock-step to every backend through two handles with independent sticky context and to a reference map; every Get, every refused locked write, every not-found error and every filesystem listing must agree with the map and hence with each other. The caller reuses its key/value buffers, overwrites what Get handed out and calls Close on handles it keeps using; the simulated file system enforces NAME_MAX. Values of 64 KiB to 300 KB now and then; a Put while the disk fills up (ENOSPC after a drawn number of bytes, file-system media) must fail and leave the latest successful write readable; listings of language-aware types must contain every key that has a default-language entry. Sampling.",
+   text="Seeded histories of Put/Get/SetPrefix/SetSession/SetLanguage/SetLock/seal/Dump/reopen applied in lock-step to every backend through two handles with independent sticky context and to a reference map; every Get, every refused locked write, every not-found error and every filesystem listing must agree with the map and hence with each other. The caller reuses its key/value buffers, overwrites what Get handed out and calls Close on handles it keeps using; the simulated file system enforces NAME_MAX. Values of 64 KiB to 300 KB now and then; a Put while the disk fills up (ENOSPC after a drawn number of bytes, file-system media) must fail and leave the latest successful write readable; listings of language-aware types must contain every key that has a default-language entry. One run in 400 lists 4090-4300 keys. Sampling.",
    note="Trusted: reference map keyed by (type, session if sessioned, key, language if translated); pgfake stands in for Postgres; well-formed keys and dot-free session ids only (adversarial ones are C11)."),
  "C11": dict(level="exploration", design="§4 C11",
    technique=TECH + "adversarial key/session histories over all backends with reopen, unique tagged values, plus an injectivity sweep over a small adversarial alphabet",
-   text="Every value written is tagged with its (type, session, key); a read or a per-session listing that returns a value tagged with a different triple is a violation, as is any path addressed outside the store directory on the simulated disk. A third kind of run goes through the engine: 2-3 sessions with related ids served alternately over ONE shared store handle (optionally one shared flushing persister, a cache capacity) must see the outputs and leave the stored records they do when served alone. Persister policies of the gateway: a new one per request, one shared flushing one, or one kept per session that selects its session through Persister.WithSession. The sweep is exhaustive over the stated alphabet and length; histories are sampled. Three encoding collisions that cannot be repaired without breaking stored data are listed as known findings (reported as KNOWN-FINDING, not suppressing other shapes).",
+   text="Every value written is tagged with its (type, session, key); a read or a per-session listing that returns a value tagged with a different triple is a violation, as is any path addressed outside the store directory on the simulated disk. A third kind of run goes through the engine: 2-3 sessions with related ids served alternately over ONE shared store handle (optionally one shared flushing persister, a cache capacity) must see the outputs and leave the stored records they do when served alone. Persister policies of the gateway: a new one per request, one shared flushing one, or one kept per session that selects its session through Persister.WithSession. Listings are now and then dropped midway, without Close, and followed by a listing of another data type on the same handle. The sweep is exhaustive over the stated alphabet and length; histories are sampled. Three encoding collisions that cannot be repaired without breaking stored data are listed as known findings (reported as KNOWN-FINDING, not suppressing other shapes).",
    note="Trusted: collision-shape classifier used only to match known findings; triples a backend rejects are skipped on that backend."),
  "C12": dict(level="fault_enumeration", design="§4 C12",
    technique=TECH + "crash (process death) injected at every file-system micro-step and write offset of every save on a simulated disk; old-or-new record oracle plus continuation twins",
-   text="For every request of sampled histories the real db/fs (compiled against the simulated os) is crashed at every micro-step and byte offset of every save; the record must be byte-equal to a complete record from before or after the interrupted save, other records untouched, and a fresh engine on the crashed disk must continue like a twin started from the old or the new record. One run in 8 uses an application whose session record exceeds 64 KiB (crash offsets then around every 4 KiB boundary and 64 KiB); the complete record of every request is also continued by a twin that is handed the same bytes by the memory backend, so that a record both fs sides fail to read alike does not pass. Exhaustive per save within the stated offset rule; histories sampled.",
+   text="For every request of sampled histories the real db/fs (compiled against the simulated os) is crashed at every micro-step and byte offset of every save; the record must be byte-equal to a complete record from before or after the interrupted save, other records untouched, and a fresh engine on the crashed disk must continue like a twin started from the old or the new record. One run in 8 uses an application whose session record exceeds 64 KiB (crash offsets then around every 4 KiB boundary and 64 KiB); the complete record of every request is also continued by a twin that is handed the same bytes by the memory backend, so that a record both fs sides fail to read alike does not pass.  One run in 5 (text-key store) moves the records to their legacy file names between requests. After every crash the state records are also listed: each complete record in the directory is listed, whatever temporary files lie next to it. Exhaustive per save within the stated offset rule; histories sampled.",
    note="Trusted: simfs (in-memory model of open/create/truncate/write/close/rename/remove with process-death semantics, no lost un-synced data); the AST import rewrite of db/fs."),
  "C13": dict(level="fault_enumeration", design="§4 C13",
    technique=TECH + "every single and (thorough: every, quick: sampled) double failing driver call on an in-process transactional fake of pgx, transaction log + acknowledged-write model",
-   text="For sampled operation histories on the real db/postgres every primitive driver call (BeginTx, Exec, Query, Next, Scan, Commit incl. in-doubt, Rollback) is made to fail once - with a synthetic error or by the request context being cancelled in mid-flight - and every pair in the thorough tier; a faulted read may fail with any error but 'not found' for a key whose write was acknowledged; histories include listings (Dump) and the table set-up step of Connect (through the one guarded hook in /repo); the faulted operation must report an error, no call may reach an ended transaction, every transaction must be ended by commit/rollback, later single operations must succeed, acknowledged writes must not be lost, and all-success explicit transactions must be visible at Stop and invisible after Abort.",
+   text="For sampled operation histories on the real db/postgres every primitive driver call (BeginTx, Exec, Query, Next, Scan, Commit incl. in-doubt, Rollback) is made to fail once - with a synthetic error or by the request context being cancelled in mid-flight - and every pair in the thorough tier; a faulted read may fail with any error but 'not found' for a key whose write was acknowledged; Connect again on a connected handle (documented as ignored) is an operation inside explicit transactions; histories include listings (Dump) and the table set-up step of Connect (through the one guarded hook in /repo); the faulted operation must report an error, no call may reach an ended transaction, every transaction must be ended by commit/rollback, later single operations must succeed, acknowledged writes must not be lost, and all-success explicit transactions must be visible at Stop and invisible after Abort.",
    note="Trusted: pgfake (stub of Postgres + pgx objects; read-committed, statement error aborts the transaction); the acknowledged/in-doubt model."),
  "C01": dict(level="exploration", design="§4 C01",
    technique=TECH + "seeded histories with restarts, failing external calls and client garbage; size invariant on every Flush plus unsized differential twin",
    text="Seeded search over generated applications, contents, page indices and input histories with the output size drawn around the unlimited page lengths; invariant len(output) <= OutputSize on every page handed to the client, and comparison with an unsized twin at the same position to rule out silent truncation. Sampling, not proof.",
-   note="Trusted: output parser over sentinel-delimited generated templates; scripted external functions. Also compared: the final output of a session with the unsized twin's (a page dropped without error is a violation). Text is generated with multi-byte characters; one run in 12 has values that fill a 65535-byte limit (pages just over 64 KiB).  One run in 4 of the engine-per-request kind has a pre-VM function that now and then turns a request away with a notice of drawn length (output like any other); MPREV before MNEXT is drawn too. No known finding left (two were repaired in /repo, see known_findings.json 'fixed')."),
+   note="Trusted: output parser over sentinel-delimited generated templates; scripted external functions. Also compared: the final output of a session with the unsized twin's (a page dropped without error is a violation). Text is generated with multi-byte characters; one run in 12 has values that fill a 65535-byte limit (pages just over 64 KiB).  One run in 4 of the engine-per-request kind has a pre-VM function that now and then turns a request away with a notice of drawn length (output like any other); MPREV before MNEXT is drawn too. End nodes without any template record (the session ends with its bare exit value) are generated. No known finding left (two were repaired in /repo, see known_findings.json 'fixed')."),
  "C08": dict(level="exploration", design="§4 C08",
    technique=TECH + "junk-heavy client histories with restarts and failing external calls over generated and example applications; recover() + consistency invariants + save/load/continue probe",
    text="Seeded search over well-formed generated applications and the repository's examples (assembled with the real assembler), all modes and backends; the first requests of every example are swept systematically over its selector alphabet plus junk. Faults: failing external functions, failing pre-VM function (also placed at the depth limit), template-lookup and client-write errors, restarts. Any panic of library code, any violated consistency invariant after a request, a session that cannot be saved, loaded and continued, and a request that does not return (confirmed in fresh processes) is a violation. The pre-VM function also turns requests away (TERMINATE plus notice), and the capacity configured for the symbol cache must still be the session's after every request. Sampling beyond the sweep depth.",
    note="Trusted: well-formedness validator of the generator (targets exist, _catch defined, flags in range, no static self-move, HALT on every move cycle; depth is NOT bounded: one run in 50 climbs to and beyond the 128-entry limit); simfs/pgfake stubs for the fs and Postgres backends."),
  "C17": dict(level="exploration", design="§4 C17",
    technique=TECH + "client-garbage injection into histories, with/without differential twins, snapshot comparison before/after refused requests",
-   text="Seeded search over histories with refusal candidates and Flush-without-Exec probes inserted at drawn positions, long-lived and persisted operation on every backend; a refused request must produce no output, run no code, leave the live and the stored session unchanged, and the twin without the refused requests must see identical results. The application has registered an input format of its own (process-wide registry of the library, filled once before any run); in half the runs the gateway reads every request into one buffer. Sampling, not proof.",
+   text="Seeded search over histories with refusal candidates and Flush-without-Exec probes inserted at drawn positions, long-lived and persisted operation on every backend; a refused request must produce no output, run no code, leave the live and the stored session unchanged, and the twin without the refused requests must see identical results. The application has registered an input format of its own (process-wide registry of the library, filled once before any run); in half the runs the gateway reads every request into one buffer. A candidate longer than state.INPUT_LIMIT bytes that is accepted is a violation (the one refusal the property spells out). Sampling, not proof.",
    note="Trusted: harness gateway; candidates the engine accepts are not refusals and end the comparison (counted)."),
  "C07": dict(level="exploration", design="§4 C07",
    technique=TECH + "seeded restart injection at request boundaries, differential twins (long-lived / persisted / mixed), tape shrinking",
-   text="Seeded search over generated applications, configurations and input histories; every history is served by three twins of the real engine (one long-lived engine, a fresh engine+persister+store handle per request, fresh at a drawn subset; the same template-lookup and client-write faults hit the same request of each) and, in a third of the runs, by a fourth twin through the library's engine.Loop over a simulated connection (lines in chunks, close or failure at drawn lines); all client-visible results must agree request by request. One run in 8 is a pair of engine-per-request twins, one with a new persister per request and one whose persister is kept between requests, continued through failed and unsaved requests: answers and session state must agree (a load replaces everything the persister held). Three short scripted applications are mixed into the batch for combinations random histories reach too late. Sampling, not proof; no model of the VM is involved, so the check cannot mis-model the code. One known finding (results that are not valid UTF-8 cannot be resumed).",
+   text="Seeded search over generated applications, configurations and input histories; every history is served by three twins of the real engine (one long-lived engine, a fresh engine+persister+store handle per request, fresh at a drawn subset; the same template-lookup and client-write faults hit the same request of each) and, in a third of the runs, by a fourth twin through the library's engine.Loop over a simulated connection (lines in chunks, close or failure at drawn lines); all client-visible results must agree request by request. One run in 8 is a pair of engine-per-request twins, one with a new persister per request and one whose persister is kept between requests, continued through failed and unsaved requests: answers and session state must agree (a load replaces everything the persister held). In half of those runs the gateway has two workers, each with a kept persister and store handle of its own. Three short scripted applications are mixed into the batch for combinations random histories reach too late. Sampling, not proof; no model of the VM is involved, so the check cannot mis-model the code. One known finding (results that are not valid UTF-8 cannot be resumed).",
    note="Trusted: the harness gateway (Exec/Flush/Finish order as in examples/http), scripted external functions that are deterministic in (symbol, call index, input), the independent bytecode encoder. Comparison stops at the first stop/error of a session."),
 }
 
